@@ -511,6 +511,11 @@ func genGbRecordN(rng *rand.Rand, fixedN, maxSeq, maxFeats int) (lines []string,
 					whole = whole[c:]
 				}
 			default:
+				if rng.Intn(12) == 0 || (gbForce.div != "" && j == 0) { // a qualifier whose value is the empty string
+					f.Quals = append(f.Quals, [2]string{k, ""})
+					lines = append(lines, ind+"/"+k+"=\"\"")
+					continue
+				}
 				ws := wordsN(rng, 1+rng.Intn(25), "/=,.:;()-_'+*")
 				f.Quals = append(f.Quals, [2]string{k, txt(ws)})
 				ws2 := append([]string{}, ws...)
